@@ -167,34 +167,67 @@ fn build_chain(len: usize, code: u64, with_c: bool, form: ExtForm) -> Vec<Tmpl> 
     v
 }
 
-fn render_chain(templates: &[Tmpl]) -> Result<Result<String, ErrorKind>, String> {
+/// how the chain's most derived template is reached and its output observed:
+/// (name, host template `h` ("" = render t0 directly), host base `hb`, expected output from the chain's)
+const REACHES: &[(&str, &str, &str)] = &[
+    ("direct", "", ""),
+    ("included", "x{% include 't0' %}y", ""),
+    ("included_in_child_block", "{% extends 'hb' %}{% block hbk %}{% include 't0' %}{% endblock %}", "<{% block hbk %}{% endblock %}>"),
+    ("captured_at_top_of_extending_host", "{% extends 'hb' %}{% set cap %}{% include 't0' %}{% endset %}{% block hbk %}{{ cap }}{% endblock %}", "<{% block hbk %}{% endblock %}>"),
+    ("captured", "{% set cap %}{% include 't0' %}{% endset %}[{{ cap }}]", ""),
+    ("in_macro_twice", "{% macro q() %}{% include 't0' %}{% endmacro %}{{ q() }}|{{ q() }}", ""),
+    ("in_loop_twice", "{% for i in [1, 2] %}{% include 't0' %}{% endfor %}", ""),
+    ("filtered_capture_at_top_of_extending_host", "{% extends 'hb' %}{% set cap %}{% filter lower %}{% include 't0' %}{% endfilter %}{% endset %}{% block hbk %}{{ cap }}{% endblock %}", "<{% block hbk %}{% endblock %}>"),
+    ("call_block_capture_at_top_of_extending_host", "{% extends 'hb' %}{% macro w() %}{{ caller() }}{% endmacro %}{% set cap %}{% call w() %}{% include 't0' %}{% endcall %}{% endset %}{% block hbk %}{{ cap }}{% endblock %}", "<{% block hbk %}{% endblock %}>"),
+];
+
+fn reach_expect(reach: usize, out: &str) -> String {
+    match reach {
+        0 => out.to_string(),
+        1 => format!("x{}y", out),
+        2 | 3 | 8 => format!("<{}>", out),
+        4 => format!("[{}]", out),
+        5 => format!("{}|{}", out, out),
+        6 => format!("{}{}", out, out),
+        _ => format!("<{}>", out.to_lowercase()),
+    }
+}
+
+fn render_chain(templates: &[Tmpl], reach: usize) -> Result<Result<String, ErrorKind>, String> {
     catch(|| {
         let mut env = Environment::new();
         for t in templates {
             env.add_template_owned(t.name.clone(), tmpl_src(t)).map_err(|e| e.kind())?;
         }
-        let tm = env.get_template("t0").map_err(|e| e.kind())?;
+        let (_, host, base) = REACHES[reach];
+        if !host.is_empty() {
+            env.add_template("h", host).map_err(|e| e.kind())?;
+        }
+        if !base.is_empty() {
+            env.add_template("hb", base).map_err(|e| e.kind())?;
+        }
+        let tm = env.get_template(if host.is_empty() { "t0" } else { "h" }).map_err(|e| e.kind())?;
         tm.render(context! { parent => "t1", yes => true, no => false }).map_err(|e| e.kind())
     })
 }
 
-fn check_chain(len: usize, code: u64, with_c: bool, form: ExtForm, acc: &Acc, l: &mut Local) {
+fn check_chain(len: usize, code: u64, with_c: bool, form: ExtForm, reach: usize, acc: &Acc, l: &mut Local) {
     let templates = build_chain(len, code, with_c, form);
     l.evals += 1;
-    let want = resolve(&templates);
-    let got = render_chain(&templates);
+    let want = resolve(&templates).map(|o| reach_expect(reach, &o));
+    let got = render_chain(&templates, reach);
     let mk = |clause: &str, detail: String| Failure {
-        key: format!("inheritance {} chain_len={} extends={:?}", clause, len, form),
-        case: format!("len={} code={} with_c={} form={:?}", len, code, with_c, form),
+        key: format!("inheritance {} chain_len={} extends={:?} reach={}", clause, len, form, REACHES[reach].0),
+        case: format!("len={} code={} with_c={} form={:?} reach={}", len, code, with_c, form, REACHES[reach].0),
         detail,
-        replay: json!({"kind": "chain", "len": len, "code": code, "with_c": with_c, "form": format!("{:?}", form), "templates": templates.iter().map(|t| (t.name.clone(), tmpl_src(t))).collect::<Vec<_>>()}),
+        replay: json!({"kind": "chain", "len": len, "code": code, "with_c": with_c, "form": format!("{:?}", form), "reach": reach, "host": REACHES[reach].1, "host_base": REACHES[reach].2, "templates": templates.iter().map(|t| (t.name.clone(), tmpl_src(t))).collect::<Vec<_>>()}),
     };
     match (got, want) {
         (Err(p), _) => acc.fail(mk("panic", format!("{} at {}", p, last_panic_loc()))),
         (Ok(Ok(a)), Ok(b)) => {
             if a == b {
                 l.outcome("chain renders as resolved");
-                l.nontrivial.insert(fnv(format!("{}|{}|{}|{:?}", len, code, with_c, form).as_bytes()));
+                l.nontrivial.insert(fnv(format!("{}|{}|{}|{:?}|{}", len, code, with_c, form, reach).as_bytes()));
             } else {
                 acc.fail(mk("output_differs", format!("engine {:?} but resolver {:?}", a, b)));
             }
@@ -322,8 +355,9 @@ pub fn main(args: Args) -> i32 {
             for t in &templates {
                 println!("{}: {}", t.name, tmpl_src(t));
             }
-            println!("resolver: {:?}\nengine:   {:?}", resolve(&templates), render_chain(&templates));
-            check_chain(j["len"].as_u64().unwrap() as usize, j["code"].as_u64().unwrap(), j["with_c"].as_bool().unwrap(), form, &acc, &mut l);
+            let reach = j["reach"].as_u64().unwrap_or(0) as usize;
+            println!("reach: {:?}\nresolver: {:?}\nengine:   {:?}", REACHES[reach], resolve(&templates).map(|o| reach_expect(reach, &o)), render_chain(&templates, reach));
+            check_chain(j["len"].as_u64().unwrap() as usize, j["code"].as_u64().unwrap(), j["with_c"].as_bool().unwrap(), form, reach, &acc, &mut l);
         } else {
             for c in fixed_cases().iter().filter(|c| Some(c.name) == j["name"].as_str()) {
                 println!("{:?}", run_case(c));
@@ -342,6 +376,7 @@ pub fn main(args: Args) -> i32 {
     }
     // chains
     let max_len = args.tier.pick(3usize, 4usize);
+    let reach_len = args.tier.pick(2, 3);
     let forms = [ExtForm::Static, ExtForm::Dynamic, ExtForm::CondTaken, ExtForm::CondNotTaken];
     for len in 1..=max_len {
         let codes = (MODES as u64).pow(3 * (len as u32 - 1));
@@ -349,13 +384,17 @@ pub fn main(args: Args) -> i32 {
         par_chunks(codes, 64, &acc, |r, l| {
             for code in r {
                 for with_c in [true, false] {
-                    if len == 1 {
-                        check_chain(len, code, with_c, ExtForm::Static, &acc, l);
-                    } else {
-                        for form in forms {
-                            // all four extends forms for chains up to length 3; the static form beyond
-                            if len <= 3 || form == ExtForm::Static {
-                                check_chain(len, code, with_c, form, &acc, l);
+                    // every reach for chains up to length 2 (quick) / 3 (thorough); direct rendering beyond
+                    let reaches = if len <= reach_len { REACHES.len() } else { 1 };
+                    for reach in 0..reaches {
+                        if len == 1 {
+                            check_chain(len, code, with_c, ExtForm::Static, reach, &acc, l);
+                        } else {
+                            for form in forms {
+                                // all four extends forms for chains up to length 3; the static form beyond
+                                if (len <= 3 && (reach == 0 || form != ExtForm::Dynamic)) || form == ExtForm::Static {
+                                    check_chain(len, code, with_c, form, reach, &acc, l);
+                                }
                             }
                         }
                     }
@@ -401,7 +440,7 @@ pub fn main(args: Args) -> i32 {
             level: "exploration",
             tier: args.tier,
             seed: args.seed,
-            rule: format!("all inheritance chains of length 1..={} in which every non-root template assigns each block of the alphabet {{a, b (nested in a in the root), c}} one of {{absent, override, override + super() before, override around super(), super() twice}} (5^3 per level), x root with/without block c, x extends form of the most derived template (static name, name from the context, inside a taken if, inside a not-taken if); expected output from a 60-line resolver (most derived definition, per-block parent cursor for super(), nested block tags render the most derived definition, text outside blocks of extending templates discarded, super() without parent fails); plus 50 hand-written include / import / error cases (include placements and name forms incl. lists and ignore missing, what an import exposes, extends and include cycles of length 1..3, double extends, missing parent, super() without parent or outside a block, required blocks, self.block()) each run under a 10 s wall cap so that a hang is a failure. distinct non-trivial = chains that render as resolved + fixed cases", max_len),
+            rule: format!("all inheritance chains of length 1..={} in which every non-root template assigns each block of the alphabet {{a, b (nested in a in the root), c}} one of {{absent, override, override + super() before, override around super(), super() twice}} (5^3 per level), x root with/without block c, x extends form of the most derived template (static name, name from the context, inside a taken if, inside a not-taken if), x 9 ways of reaching the most derived template for chains up to length {} (rendered directly; included at top level, in a child block, in a macro called twice, in a loop body; include captured by a set block in a plain host and at the top level of an extending host, there also below a filter block and below a call block); expected output from a 60-line resolver (most derived definition, per-block parent cursor for super(), nested block tags render the most derived definition, text outside blocks of extending templates discarded, super() without parent fails); plus 50 hand-written include / import / error cases (include placements and name forms incl. lists and ignore missing, what an import exposes, extends and include cycles of length 1..3, double extends, missing parent, super() without parent or outside a block, required blocks, self.block()) each run under a 10 s wall cap so that a hang is a failure. distinct non-trivial = chains that render as resolved + fixed cases", max_len, reach_len),
             exhaustive: true,
             bound: json!({"max_chain_len": max_len, "modes": ["absent", "override", "super_before", "super_inside", "super_twice"]}),
             assumptions: vec!["the resolver in c06.rs is the trusted base for chains; the expectations of the fixed cases were written by hand from the documentation".into()],
